@@ -36,10 +36,13 @@ func (e *Engine) setFloatMode(fc *FuncContract) {
 // Verify generates all obligations for one function under contract.
 func (e *Engine) Verify(key string) (res *FuncResult) {
 	fc := e.Contracts[key]
-	fn := e.Funcs[key]
+	fn := e.lookupFunc(key)
 	res = &FuncResult{Key: key, Short: e.shortName(key)}
 	if fc != nil {
 		res.Props = fc.Props
+	}
+	if fc != nil && fc.IsLemma {
+		return e.verifyLemma(res, fc)
 	}
 	if fn == nil {
 		res.Errors = append(res.Errors, "function not found in the current source: "+key)
@@ -51,7 +54,18 @@ func (e *Engine) Verify(key string) (res *FuncResult) {
 	}
 	e.setFloatMode(fc)
 	vc := e.newVC(fn, fc)
+	if strings.HasPrefix(key, "var ") {
+		// obligations of a function bound to a package-level variable are named after the variable
+		vc.short = strings.TrimPrefix(e.shortName(key), "var ")
+		if n := e.VarStores[baseKey(key)]; n > 0 {
+			vc.Errors = append(vc.Errors, fmt.Sprintf("%s is assigned outside the package initialiser (%d stores): its contract cannot stand for one function", key, n))
+		}
+	} else if strings.Contains(key, "@") {
+		vc.short = e.shortName(key)
+	}
+	res.Short = vc.short
 	res.VC = vc
+	vc.preambleFor(false)
 	defer func() {
 		if r := recover(); r != nil {
 			if se, ok := r.(specErr); ok {
@@ -155,6 +169,13 @@ func (fr *Frame) bindResults(sc *Scope, vals []Val) {
 func (vc *VC) emitAxioms(fr *Frame) {
 	e := vc.e
 	for _, ax := range e.Axioms {
+		if !vc.usesAxiom(ax.Name) {
+			continue
+		}
+		if ax.Raw != "" {
+			vc.cmds = append(vc.cmds, "(assert "+e.floatSorts(ax.Raw)+") ; axiom "+ax.Name)
+			continue
+		}
 		nq := 0
 		sc := &Scope{vc: vc, vars: map[string]Val{}, cur: fr.entry, old: fr.entry, nq: &nq}
 		if p := e.Pkgs[ax.Pkg]; p != nil {
@@ -239,4 +260,79 @@ func (e *Engine) globalsWithPrefix(p string) []string {
 		}
 	}
 	return out
+}
+
+func (vc *VC) usesAxiom(name string) bool {
+	if vc.fc == nil {
+		return false
+	}
+	for _, u := range vc.fc.Uses {
+		if u == name || u == "*" {
+			return true
+		}
+	}
+	return false
+}
+
+// floatSorts replaces the sort placeholder Float in raw SMT text.
+func (e *Engine) floatSorts(s string) string {
+	if e.FloatSort == "Real" {
+		return strings.ReplaceAll(s, "Float", "Real")
+	}
+	return strings.ReplaceAll(s, "Float", e.FloatSort)
+}
+
+// verifyLemma: the ensures clauses of a lemma are obligations over the used axioms only.
+func (e *Engine) verifyLemma(res *FuncResult, fc *FuncContract) *FuncResult {
+	e.setFloatMode(fc)
+	vc := &VC{e: e, fc: fc, short: fc.Key, sorts: map[string]string{}, oblNames: map[string]int{},
+		usedTrusted: map[string]bool{}, inlined: map[string]bool{}, callCount: map[string]int{}}
+	vc.short = strings.ReplaceAll(fc.Key, " ", ".")
+	res.VC = vc
+	vc.preambleFor(false)
+	res.Short = vc.short
+	entry := newState()
+	pkg := types.NewPackage("ext", "ext")
+	if p := e.Pkgs[fc.Pkg]; p != nil {
+		pkg = p.Types
+	}
+	mk := func() *Scope {
+		nq := 0
+		return &Scope{vc: vc, vars: map[string]Val{}, cur: entry, old: entry, pkg: pkg, nq: &nq}
+	}
+	for _, ax := range e.Axioms {
+		if !vc.usesAxiom(ax.Name) {
+			continue
+		}
+		if ax.Raw != "" {
+			vc.cmds = append(vc.cmds, "(assert "+e.floatSorts(ax.Raw)+") ; axiom "+ax.Name)
+			continue
+		}
+		t, err := mk().compileBool(ax.Expr)
+		if err != nil {
+			vc.Errors = append(vc.Errors, fmt.Sprintf("axiom %s: %v", ax.Name, err))
+			continue
+		}
+		vc.cmds = append(vc.cmds, "(assert "+t.String()+") ; axiom "+ax.Name)
+	}
+	for i, rq := range fc.Requires {
+		t, err := mk().compileBool(rq.Expr)
+		if err != nil {
+			vc.Errors = append(vc.Errors, fmt.Sprintf("requires %d: %v", i+1, err))
+			continue
+		}
+		vc.assume(TTrue, t)
+	}
+	vc.exits = append(vc.exits, TTrue)
+	for i, en := range fc.Ensures {
+		t, err := mk().compileBool(en.Expr)
+		if err != nil {
+			vc.Errors = append(vc.Errors, fmt.Sprintf("ensures %d: %v", i+1, err))
+			continue
+		}
+		vc.oblige("lemma", clauseLabel(en, i), TTrue, t, 0, en.Src, en.Props, "")
+	}
+	res.Obls = vc.Obls
+	res.Errors = vc.Errors
+	return res
 }
